@@ -151,7 +151,9 @@ def read_csv_cells(path):
 # --------------------------------------------------------------------------- generators
 
 LABELS = ["F", "F_a", "F_timeout", "F_x,y", 'F_"q"', "F_ 1", "Fail", "F_CANCELLED",
-          "F_line1\nline2", "F_cr\rx", "F_crlf\r\nend", "F_\u00e9\u2713", 'F_",\n"']
+          "F_line1\nline2", "F_cr\rx", "F_crlf\r\nend", "F_\u00e9\u2713", 'F_",\n"',
+          # trailing white space belongs to the label ("the exact failure string")
+          "F_oom\n", "F_timeout ", "F_tab\t", "F_x\r\n", "F_ \n ", "F  "]
 META_POOL = ["a", "b", "num", "txt", "_hidden", "loss", "k,1", "\u00fc", 'q"k']
 TEXTS = ["abc", "a,b", "x y", 'q"r', "1.0", "l1\nl2", "cr\rx", "l1\r\nl2", "\u00e9\u2713 \u4e2d", '","', " lead", "trail ", "'s"]
 
@@ -618,11 +620,19 @@ def value_cell_ok(text, v):
     return text == str(v)
 
 
-def oracle_table(cells, finished, m_declared):
+def oracle_table(cells, finished, m_declared, need_meta=True):
     """The property, stated directly.  `cells` = parsed CSV (header + lines, pareto column allowed);
-    `finished` = list of dicts {id, args, raw, status, meta(dict of what the job returned)} in any order.
-    Returns list of (clause, detail)."""
+    `finished` = list of dicts {id, args, raw, status, meta(dict of what the job returned)} in finishing
+    order.  Returns list of (clause, detail)."""
     out = []
+    if finished and cells and need_meta:
+        # "the metadata keys known when the table header was written": the header is written at the first
+        # success, so the metadata keys of the first non-failed job must be columns
+        first_ok = next((f for f in finished if not is_failure_obj(expected_objective(f["raw"]))), None)
+        if first_ok is not None:
+            missing = [k for k in first_ok["meta"] if not k.startswith("_") and f"m:{k}" not in cells[0]]
+            if missing:
+                out.append(("header-metadata-keys", {"first_success_job": first_ok["id"], "missing": missing, "header": cells[0]}))
     if not finished:
         return out
     if not cells:
@@ -1105,6 +1115,34 @@ def _job_record(case, obs, eidx, j):
     return {"id": j["id"], "args": lg["args"], "raw": raw, "status": j.get("status", "DONE"), "meta": returned_meta(raw)}
 
 
+def need_meta_from(dumps):
+    """`dumps` = [(objectives newly pending, flush)] of one Search object / evaluator.  The clause
+    "the metadata keys of the first successful job are columns" applies when the writer starts (first dump
+    with something pending and a success or flush) at a dump that contains a success — "the metadata keys
+    known when the table header was written".  It does not when the header is written by a flush while only
+    failures have finished (their keys are the ones known then), nor — unreachable from search() — by a
+    flush whose pending jobs have a failure in front of the first success (the writer takes that failure's
+    keys, as written)."""
+    pend = []
+    for new, fl in dumps:
+        pend += [o for o in new if o is not None]
+        if not pend:
+            continue
+        has_ok = any(not is_failure_obj(o) for o in pend)
+        if has_ok or fl:
+            return has_ok and not (fl and is_failure_obj(pend[0]))
+    return True
+
+
+def _need_meta(case):
+    objs = [expected_objective(dec(case["jobs"][i]["out"])) for i in case["order"]]
+    dumps, pos = [], 0
+    for cnt, fl in case["ops"]:
+        dumps.append((objs[pos:pos + cnt], fl))
+        pos += cnt
+    return need_meta_from(dumps)
+
+
 def _unit_objs(case):
     return [expected_objective(dec(case["jobs"][i]["out"])) for i in case["order"]]
 
@@ -1143,12 +1181,12 @@ def check_unit(ck, d, case, collect):
         if any("raised" in s for s in obs["steps"]):
             viol.append(("dump-raises", obs["steps"][-1]))
         else:
-            viol += oracle_table(obs["pre"], fin, case["m"])
+            viol += oracle_table(obs["pre"], fin, case["m"], need_meta=_need_meta(case))
             if obs["pareto_err"] is not None:
                 viol.append(("pareto-step-raises", obs["pareto_err"]))
             elif not viol and obs["final"] != obs["pre"]:
                 # the file rewritten by the Pareto step is still the table of the same evaluations
-                viol += [(c + "-after-pareto-rewrite", dt) for c, dt in oracle_table(obs["final"], fin, case["m"])]
+                viol += [(c + "-after-pareto-rewrite", dt) for c, dt in oracle_table(obs["final"], fin, case["m"], need_meta=_need_meta(case))]
     if viol:
         tags += _text_tags(case)
     collect.append(("unit", case, obs, tags, viol))
@@ -1159,15 +1197,18 @@ def check_search(ck, d, case, collect):
     obs = run_search_real(case)
     searches = _searches_of(case)
     viol, cur, objs_all, viol_objs = [], [], [], []
+    cur_dumps, need_meta_calls = [], []
     midflush, reused, kinds_used = False, False, []
     calls = []  # (cells, fin) per finished search() call: for the verified Pareto checker
     for ev in obs["events"]:
         if ev[0] == "new_search":
             cur = []  # the table of a new Search object holds its own evaluations only
+            cur_dumps = []
             kinds_used.append(ev[2])
         elif ev[0] == "dump":
             _, eidx, new, fl = ev
             cur += [_job_record(case, obs, eidx, j) for j in new]
+            cur_dumps.append(([expected_objective(_job_record(case, obs, eidx, j)["raw"]) for j in new], fl))
             objs = [expected_objective(f["raw"]) for f in cur]
             objs_all += [expected_objective(_job_record(case, obs, eidx, j)["raw"]) for j in new]
         else:
@@ -1180,7 +1221,8 @@ def check_search(ck, d, case, collect):
                 viol_objs = [expected_objective(f["raw"]) for f in cur]
                 reused = bool(kinds_used) and kinds_used[-1] == "reuse"
                 continue
-            for c, dt in oracle_table(info["cells"], cur, case["m"]):
+            need_meta_calls.append(need_meta_from(cur_dumps))
+            for c, dt in oracle_table(info["cells"], cur, case["m"], need_meta=need_meta_calls[-1]):
                 viol.append((c, dict(where, detail=dt)))
             if info["cells"] and info["df"] is not None:
                 # the returned DataFrame is the file
@@ -1229,6 +1271,7 @@ def check_search(ck, d, case, collect):
     ck.count(f"search:workers={case['num_workers']}")
     ck.count(f"search:finished={min(len(objs_all), 9)}")
     obs["calls"] = calls
+    obs["need_meta_calls"] = need_meta_calls
     collect.append(("search", case, obs, tags, viol))
     return obs
 
@@ -1404,13 +1447,15 @@ def _process(ck, collect):
     for n, (level, case, obs, tags, viol) in enumerate(collect):
         if level == "unit":
             if case.get("preset") in (None, case["m"]) and obs["pre"] and not any("raised" in st for st in obs["steps"]):
-                creqs.append(check_request(obs["pre"], reqs[idx.index(n)]["jobs"], case.get("preset")))
+                creqs.append(dict(check_request(obs["pre"], reqs[idx.index(n)]["jobs"], case.get("preset")), need_meta=_need_meta(case)))
                 cidx.append((n, None))
         else:
             ends = [ev[1] for ev in obs["events"] if ev[0] == "call_end"]
             for k, (info, (cj, preset)) in enumerate(zip(ends, obs.get("call_jobs", []))):
                 if info["err"] is None and info["cells"] and cj:
-                    creqs.append(check_request(info["cells"], cj, preset))
+                    nm = obs.get("need_meta_calls", [])
+                    ok_k = sum(1 for e in ends[:k + 1] if e["err"] is None) - 1  # index among the calls that ended normally
+                    creqs.append(dict(check_request(info["cells"], cj, preset), need_meta=nm[ok_k] if 0 <= ok_k < len(nm) else True))
                     cidx.append((n, k))
     with ck.driver() as d:
         reps = d.ask_all(reqs)
@@ -1419,7 +1464,7 @@ def _process(ck, collect):
     for n, rep in zip(pidx, preps):
         if not rep["spec"]:
             collect[n][4].append(("pareto-not-exact", None))
-    table_clauses = ("missing-table", "duplicate-columns", "no-job_id-column", "ragged-line", "rows-not-in-bijection-with-jobs",
+    table_clauses = ("header-metadata-keys", "missing-table", "duplicate-columns", "no-job_id-column", "ragged-line", "rows-not-in-bijection-with-jobs",
                      "objective-columns", "configuration-column-missing", "configuration-cell", "failure-string-cell",
                      "nonfinite-not-marked", "objective-cell", "status-cell", "metadata-cell")
     seen_reject = set()
